@@ -23,6 +23,9 @@ T = gen.TABLES
 DEFAULT_TIME = (2024, 3, 10, 12, 30, 15)
 
 
+CANCEL = "c"      # a write fault: not a failure of the transport, the waiting task is cancelled there
+
+
 class FaultTransport(Transport):
     """In-memory transport: scripted reads, write attempts recorded, scripted write failures."""
 
@@ -43,6 +46,10 @@ class FaultTransport(Transport):
     async def write(self, decoded_message: str) -> None:
         fail = self.faults.pop(0) if self.faults else False
         self.attempts.append((decoded_message, not fail))
+        if fail == CANCEL:
+            # the task waiting in this write is cancelled (wait_for / timeout / task.cancel()): what the awaiting
+            # code sees is asyncio.CancelledError raised at this await
+            raise asyncio.CancelledError
         if fail:
             raise exc.TransportFailedError("scripted write failure")
 
@@ -90,7 +97,7 @@ def b(x: bool) -> str:
 
 
 def faults_tok(f) -> str:
-    return "".join(b(x) for x in f) if f else "-"
+    return "".join("c" if x == CANCEL else b(x) for x in f) if f else "-"
 
 
 # ---- rendering (must match Driver.lean's showSt / showExn / showWrites) -----------------------
@@ -428,7 +435,11 @@ def gen_preload(rng, nodes=NODES):
     return pre
 
 
-def gen_history(rng, version, length, send_ratio=0.25, fault_ratio=0.05, preload_p=0.5, nodes=NODES):
+def gen_faults(rng, cancel_ratio=0.0, n=None):
+    return tuple(CANCEL if rng.random() < cancel_ratio else rng.random() < 0.5 for _ in range(n or rng.randint(1, 4)))
+
+
+def gen_history(rng, version, length, send_ratio=0.25, fault_ratio=0.05, preload_p=0.5, nodes=NODES, cancel_ratio=0.0):
     h = Hist(version if rng.random() < 0.75 else None, rng.random() < 0.7)
     if rng.random() < preload_p:
         h.preload = gen_preload(rng, nodes)
@@ -439,7 +450,7 @@ def gen_history(rng, version, length, send_ratio=0.25, fault_ratio=0.05, preload
         else:
             op = ("recv", gen_line(rng, active, nodes), (), rng.choice(TIMES))
         if rng.random() < fault_ratio:
-            f = tuple(rng.random() < 0.5 for _ in range(rng.randint(1, 4)))
+            f = gen_faults(rng, cancel_ratio)
             op = (op[0], op[1], f, op[3]) if op[0] == "recv" else (op[0], op[1], op[2], f)
         h.ops.append(op)
     return h
